@@ -1139,6 +1139,42 @@ pub fn gen_cluster(seed: u64, tier: &Tier, shard: usize, nshards: usize, emit: &
             }
         }
         let keys = ["a", "b", "ready", "drain", "a/x", ""];
+        // directed prefix (own random stream, the rest of the case is unchanged): a SYN of node 0 is
+        // still in flight when node 0 deletes a key and writes again; node 1 learns all that,
+        // collects the tombstone *before* node 0 does, and only then answers the old SYN — with a
+        // from-0 delta about node 0 itself whose max version equals node 0's, and whose GC
+        // watermark is ahead of node 0's own. Node 0 then processes that answer (C05, C03, C20).
+        {
+            let mut r2 = Rng::new(seed ^ ((i as u64) << 16) ^ 0x57A1E);
+            if !two_clusters && !twins && r2.chance(1, 5) {
+                let v = hex(b"v");
+                emit(format!("(set 0 {} {v})", hex(b"a")));
+                emit(format!("(set 0 {} {v})", hex(b"b")));
+                emit("(handshake 0 1)".to_string());
+                emit("(handshake 1 0)".to_string());
+                emit("(initiate 0 1)".to_string()); // soup[0]: the SYN that will be late
+                match r2.below(3) {
+                    0 => emit(format!("(del 0 {})", hex(b"a"))),
+                    1 => emit(format!("(delttl 0 {})", hex(b"a"))),
+                    _ => emit(format!("(setttl 0 {} {v})", hex(b"drain"))),
+                }
+                if r2.chance(2, 3) {
+                    emit(format!("(set 0 {} {v})", hex(b"a/x")));
+                }
+                emit("(handshake 0 1)".to_string());
+                emit("(handshake 1 0)".to_string());
+                emit(format!("(advance {})", grace + 1));
+                emit("(gc 1)".to_string());
+                if r2.chance(1, 4) {
+                    emit("(gc 0)".to_string());
+                }
+                emit("(deliver 0)".to_string()); // node 1 answers the late SYN: soup[1]
+                emit("(deliver 1)".to_string()); // node 0 processes the answer: soup[2] = its ACK
+                emit("(deliver 2)".to_string());
+                emit("(live 0)".to_string());
+                emit("(live 1)".to_string());
+            }
+        }
         let steps = if tier.thorough { rng.range(20, 160) } else { rng.range(10, 70) };
         let partitioned = rng.chance(1, 3);
         for step in 0..steps {
